@@ -11,6 +11,13 @@ C11 driver.
      fn := <sym-hex> <argsize> <locals> <nosplit> <dupok> <topframe> <wrapper> <wantframe> <wantargs>
            <n> (line addr target+1)* <n> (instrIdx label-hex)* <n> (label-hex instrIdx)*
            (target+1 = 0: not a jump; = 2^40: a jump without decodable relative target)
+  accept-objdata <tag> <n> want* <m> have* → ok | bad-data-…   (data symbols of the object file against the constants the
+                                            generator placed: every byte at its offset, zero gaps, size, kind, dupok, static)
+     want := <name-hex> <static> <attrs> <size> <k> (off nbytes bytes-hex)*
+     have := <name-hex> <kind> <static> <dupok> <size> <bytes-hex>
+  accept-floatlit <kind> <value-hex>      → ok | bad-float-literal   (a float DATA value `$(…)` in decimal form must be ONE float
+                                            token of the assembler's scanner followed by `)`: Model/AsmLit floatOperandOK)
+  scan-number <text-hex>                  → <token length> <float 0|1>   (Model/AsmLit scanNumber vs Go's text/scanner)
   hist <n> op*                            → per print of the history `<wf 0|1>:<hex of the model's text>` (`nofile` for an
                                             empty slot; `-` when nothing is printed): Model/PrintHist `run` on the empty heap
   accept-hist <n> op* <m> out*            → ok | bad-hist print=<k> …   (out := x | <output-hex>: the implementation's text of
@@ -23,6 +30,7 @@ C11 driver.
 -/
 import AvoVerif.Drv.Print
 import AvoVerif.Model.PrintHist
+import AvoVerif.Model.AsmLit
 import AvoVerif.Gen.TextFlags
 import AvoVerif.Oracle.TextFlagH
 namespace Avo.Drv.C11
@@ -262,6 +270,99 @@ def acceptAsmE (f : File) (out : Txt) (fns : List AsmFn) : Option String :=
 
 def acceptAsm (f : File) (out : Txt) (fns : List AsmFn) : String := verdict (acceptAsmE f out fns)
 
+/-! ### data symbols of the object file -/
+
+structure WantDatum where
+  off : Nat
+  n : Nat
+  bytes : List Nat
+  deriving Repr, DecidableEq
+
+structure WantGl where
+  name : Txt
+  static : Bool
+  attrs : BitVec 16
+  size : Nat
+  data : List WantDatum
+  deriving Repr, DecidableEq
+
+structure HaveSym where
+  name : Txt
+  kind : String
+  static : Bool
+  dupok : Bool
+  size : Nat
+  bytes : List Nat                -- as listed: trailing zero bytes may be left out
+
+def bytesTok : P (List Nat)
+  | [] => none
+  | t :: ts => (unhex t).map (·, ts)
+
+def wantDatumTok : P WantDatum := fun ts => do
+  let (off, ts) ← natTok ts
+  let (n, ts) ← natTok ts
+  let (bs, ts) ← bytesTok ts
+  some (⟨off, n, bs⟩, ts)
+
+def wantGlTok : P WantGl := fun ts => do
+  let (name, ts) ← txtTok ts
+  let (st, ts) ← boolTok ts
+  let (attrs, ts) ← attrTok ts
+  let (size, ts) ← natTok ts
+  let (data, ts) ← listOf wantDatumTok ts
+  some (⟨name, st, attrs, size, data⟩, ts)
+
+def haveSymTok : P HaveSym := fun ts => do
+  let (name, ts) ← txtTok ts
+  let (kind, ts) ← strTok ts
+  let (st, ts) ← boolTok ts
+  let (dupok, ts) ← boolTok ts
+  let (size, ts) ← natTok ts
+  let (bs, ts) ← bytesTok ts
+  some (⟨name, kind, st, dupok, size, bs⟩, ts)
+
+/-- The symbol's image: the listed bytes, zero up to its size. -/
+def image (h : HaveSym) : List Nat := h.bytes ++ List.replicate (h.size - h.bytes.length) 0
+
+def slice (bs : List Nat) (off n : Nat) : List Nat := (bs.drop off).take n
+
+/-- What cmd/asm makes of the GLOBL flags (obj.Link.Globl): RODATA (bit 3) first, then NOPTR (bit 4), then TLSBSS
+(bit 8); a symbol without DATA lines is a BSS symbol. -/
+def expectKind (attrs : BitVec 16) (hasData : Bool) : String :=
+  if attrs.getLsbD 3 then "RODATA"
+  else if attrs.getLsbD 4 then (if hasData then "NOPTRDATA" else "NOPTRBSS")
+  else if attrs.getLsbD 8 then "TLSBSS"
+  else if hasData then "DATA" else "BSS"
+
+def covered (data : List WantDatum) (i : Nat) : Bool := data.any (fun d => decide (d.off ≤ i) && decide (i < d.off + d.n))
+
+def datumOK (img : List Nat) (d : WantDatum) : Bool := d.bytes.length == d.n && slice img d.off d.n == d.bytes
+
+def gapsZero (w : WantGl) (img : List Nat) : Bool :=
+  (List.range w.size).all (fun i => covered w.data i || img.getD i 0 == 0)
+
+def acceptGl (w : WantGl) (h : HaveSym) : Option String :=
+  if h.size != w.size then some "bad-data-size"
+  else if h.bytes.length > h.size then some "bad-data-listing"
+  else if !w.data.all (datumOK (image h)) then some "bad-data-bytes"
+  else if !gapsZero w (image h) then some "bad-data-gap"
+  else if h.kind != expectKind w.attrs (!w.data.isEmpty) then some "bad-data-kind"
+  else if h.dupok != w.attrs.getLsbD 1 then some "bad-data-dupok"
+  else if h.static != w.static then some "bad-data-static"
+  else none
+
+def judgeGl (hs : List HaveSym) (w : WantGl) : Option String :=
+  match hs.find? (fun h => h.name == w.name) with
+  | none => some "bad-data-symbol-missing"
+  | some h => acceptGl w h
+
+def acceptObjDataE (ws : List WantGl) (hs : List HaveSym) : Option String :=
+  match firstBad (ws.map (judgeGl hs)) with
+  | some e => some e
+  | none => if hs.length != ws.length then some "bad-data-symbol-count" else none
+
+def acceptObjData (ws : List WantGl) (hs : List HaveSym) : String := verdict (acceptObjDataE ws hs)
+
 /-! ### histories (Model/PrintHist) -/
 
 def fnEditTok : P FnEdit
@@ -412,6 +513,20 @@ def handle : Handler
     let (out, ts) ← txtTok ts
     let (fns, _) ← listOf asmFnTok ts
     some (acceptAsm f out fns)
+  | "accept-objdata" :: _tag :: ts => do
+    let (ws, ts) ← listOf wantGlTok ts
+    let (hs, _) ← listOf haveSymTok ts
+    some (acceptObjData ws hs)
+  | "accept-floatlit" :: _kind :: ts => do
+    let (t, _) ← txtTok ts
+    match t with
+    | '$' :: '(' :: body =>
+      some (if !Avo.AsmLit.modelled (Avo.AsmLit.stripSigns body) || Avo.AsmLit.floatOperandOK t then "ok" else "bad-float-literal")
+    | _ => some "bad-float-literal"
+  | "scan-number" :: ts => do
+    let (t, _) ← txtTok ts
+    let r := Avo.AsmLit.scanNumber t
+    some (toString r.1.length ++ " " ++ (if r.2.2 then "1" else "0"))
   | "hist" :: ts => do
     let (ops, _) ← listOf opTok ts
     some (histAnswer ops)
@@ -425,6 +540,6 @@ def handle : Handler
   | _ => none
 
 def handlers : List (String × Handler) :=
-  ["print", "wf", "accept-print", "accept-asm", "accept-assembles", "accept-decode", "hist", "accept-hist"].map (·, handle)
+  ["print", "wf", "accept-print", "accept-asm", "accept-assembles", "accept-decode", "hist", "accept-hist", "accept-objdata", "accept-floatlit", "scan-number"].map (·, handle)
 
 end Avo.Drv.C11
